@@ -107,6 +107,9 @@ func (source SourceGeopackage) ReadFeatures(features chan<- processing.Feature) 
 		for i, colName := range cols {
 			switch colName {
 			case source.Table.gcolumn:
+				if vals[i] == nil { // a feature without geometry (NULL) keeps a nil geometry
+					break
+				}
 				wkbgeom, err := gpkg.DecodeGeometry(vals[i].([]byte))
 				if err != nil {
 					log.Fatalf("error decoding the geometry: %s", err)
@@ -234,15 +237,19 @@ func (target *TargetGeopackage) writeFeatures(features []processing.Feature) {
 	var ext *geom.Extent
 
 	for _, f := range features {
-		sb, err := gpkg.NewBinary(int32(target.Table.srs.ID), f.Geometry())
-		if err != nil {
-			log.Fatalf("Could not create a binary geometry: %s", err)
+		var geometry interface{} // stays NULL for a feature without geometry
+		if f.Geometry() != nil {
+			sb, err := gpkg.NewBinary(int32(target.Table.srs.ID), f.Geometry())
+			if err != nil {
+				log.Fatalf("Could not create a binary geometry: %s", err)
+			}
+			geometry = sb
 		}
 
 		columns := f.Columns()
 		data := make([]interface{}, 0, len(columns)+1)
 		data = append(data, columns...)
-		data = append(data, sb)
+		data = append(data, geometry)
 
 		_, err = stmt.Exec(data...)
 		if err != nil {
@@ -253,6 +260,9 @@ func (target *TargetGeopackage) writeFeatures(features []processing.Feature) {
 			log.Fatalf("Could not get a result summary from the prepared statement for fid %s: %s", fid, err)
 		}
 
+		if f.Geometry() == nil { // nothing to add to the extent
+			continue
+		}
 		if ext == nil {
 			ext, err = geom.NewExtentFromGeometry(f.Geometry())
 			if err != nil {
